@@ -541,8 +541,10 @@ def oracle_request(header, ranges, offers):
     got = catch(lambda: canon_result(req.accept.acceptable_offers([mk_offer(o) for o in offers])))
     want = [[canon_ref_offer(o), q] for o, q in ref_accept(ranges, offers)]
     if got != want:
-        return ("accept:request-attribute", "Request.accept for %r offers %r gave %r, the property says %r"
-                % (header, offers, got, want))
+        key = classify_accept(header, ranges, offers, got, want)
+        if key != "accept:offer-with-trailing-newline-accepted":
+            key = "accept:request-attribute"
+        return (key, "Request.accept for %r offers %r gave %r, the property says %r" % (header, offers, got, want))
     # consumer: error body type follows the first acceptable of [text/html, application/json]
     ref = ref_accept(ranges, ["text/html", "application/json"])
     want_ct = {"text/html": "text/html", "application/json": "application/json"}.get(ref[0][0] if ref else None, "text/plain")
@@ -654,6 +656,60 @@ def small_simple_universe(encoding):
 
 
 # ----------------------------------------------------------------------------------------------
+# Regenerated obligations: character classes and the HTML offer lists, read from the live source
+# ----------------------------------------------------------------------------------------------
+def gen_text():
+    import ast
+    import inspect
+    import re
+    import webob.acceptparse as ap
+    A = ap.Accept
+    def cls(pred):
+        return [c for c in range(1024) if pred(chr(c))]
+    tchar = cls(lambda ch: re.fullmatch(ap.tchar_re, ch) is not None)
+    ows = cls(lambda ch: ch != "" and re.fullmatch(ap.OWS_re, ch) is not None)
+    qdtext = cls(lambda ch: re.fullmatch(A.qdtext_re, ch) is not None)
+    qpchar = cls(lambda ch: re.fullmatch(A.quoted_pair_re, "\\" + ch) is not None)
+    tree = ast.parse(inspect.getsource(ap))
+    lists = {}
+    for node in tree.body:
+        if isinstance(node, ast.ClassDef) and node.name in ("AcceptValidHeader", "_AcceptInvalidOrNoHeader"):
+            for f in node.body:
+                if isinstance(f, ast.FunctionDef) and f.name == "accept_html":
+                    ls = [n for n in ast.walk(f) if isinstance(n, ast.List)]
+                    if len(ls) != 1 or not all(isinstance(e, ast.Constant) and isinstance(e.value, str) for e in ls[0].elts):
+                        raise ValueError("accept_html of %s: cannot find the literal offer list" % node.name)
+                    lists[node.name] = [e.value for e in ls[0].elts]
+    if set(lists) != {"AcceptValidHeader", "_AcceptInvalidOrNoHeader"}:
+        raise ValueError("accept_html not found in both classes")
+    def nl(xs): return "[" + "; ".join("%d%%N" % x for x in xs) + "]"
+    def sl(xs): return "[" + "; ".join('H "%s"' % x.encode("latin-1").hex() for x in xs) + "]"
+    out = ["(* REGENERATED from %s by harness/props/c04.py gen(ctx) - do not edit *)" % "webob/acceptparse.py",
+           "From Coq Require Import NArith List String.", "Require Import Webob.Lib.Val.", "Import ListNotations.",
+           "Local Open Scope string_scope.",
+           "(* code points < 1024 accepted by tchar_re / one OWS character / qdtext_re / the second character of quoted_pair_re *)",
+           "Definition gen_tchar : list N := %s." % nl(tchar),
+           "Definition gen_ows : list N := %s." % nl(ows),
+           "Definition gen_qdtext : list N := %s." % nl(qdtext),
+           "Definition gen_qpchar : list N := %s." % nl(qpchar),
+           "(* the literal offer lists of AcceptValidHeader.accept_html and _AcceptInvalidOrNoHeader.accept_html *)",
+           "Definition gen_html_offers : list str := %s." % sl(lists["AcceptValidHeader"]),
+           "Definition gen_html_offers_nohdr : list str := %s." % sl(lists["_AcceptInvalidOrNoHeader"])]
+    return "\n".join(out) + "\n"
+
+
+def gen(ctx):
+    """Regenerate coq/Gen/C04_tables.v; Proofs/C04_tables.v re-proves that the model's character classes and
+    HTML offer list are the source's.  Returns a list of problems (fail-closed)."""
+    import os
+    try:
+        fw.write_if_changed(os.path.join(fw.COQ, "Gen", "C04_tables.v"), gen_text())
+        return []
+    except Exception as e:  # noqa
+        return ["C04 translator: %s: %s" % (type(e).__name__, e)]
+
+
+# ----------------------------------------------------------------------------------------------
 # The check
 # ----------------------------------------------------------------------------------------------
 def report(ctx, res, case, source):
@@ -703,6 +759,8 @@ def non_normal_obj(rng):
 def run(ctx):
     from webob.acceptparse import (create_accept_header, create_accept_charset_header, create_accept_encoding_header,
                                    AcceptValidHeader)
+    for problem in gen(ctx):
+        ctx.broken.append(problem)
     ctx.build(["Props/C04.vo"])
 
     # ------------------------------------------------------------------ correspondence
@@ -731,7 +789,8 @@ def run(ctx):
             continue
         j["parsed"] = jparsed(h.parsed)
         cases.append((cpair(craw_ranges(h.parsed), clist(coffer(o) for o in offers)), got, j))
-        hcases.append((craw_ranges(h.parsed), bool(h.accept_html()), j))
+        if len(hcases) < n // 2:
+            hcases.append((craw_ranges(h.parsed), bool(h.accept_html()), j))
     bad = ctx.corr("accept", IMPORTS, "(fun c => c04_accept (fst c) (snd c))", cases, in_type="(list raw_range * list offer)")
     corr_followup(ctx, "accept", cases, bad)
     bad = ctx.corr("accept_html", IMPORTS, "c04_accept_html", hcases, in_type="(list raw_range)")
